@@ -103,9 +103,13 @@ STD_CALLS = [
     (r'^isinf\|bool \((const )?(double|float)\)', 'NV_ISINF({0})'),
     (r'^isfinite\|bool \((const )?(double|float)\)', 'NV_FINITE({0})'),
     (r'^signbit\|bool \((const )?(double|float)\)', '__CPROVER_signd({0})'),
+    (r'^(sqrt|exp|log|log10|cbrt)\|double \((const )?double\)', None),      # -> NV_UF_<name>({0}) (filled in below)
+    (r'^pow\|double \((const )?double, (const )?double\)', 'NV_UF_pow({0}, {1})'),
     (r'^memcpy\|void \*\(void \*', 'memcpy((void*)({0}), (const void*)({1}), {2})'),
     (r'^operator=\|[^|]*\|std::atomic<(bool|int|long|unsigned long|unsigned int|double)>\|#2', '(*{&0} = {1})'),
 ]
+STD_CALLS = [x for rx, m in STD_CALLS for x in ([(rx, m)] if m is not None else
+                                                [(rx.replace('(sqrt|exp|log|log10|cbrt)', f), f'NV_UF_{f}({{0}})') for f in ('sqrt', 'exp', 'log10', 'log', 'cbrt')])]
 # sequential view of std::atomic<scalar>: a load is the value, a store is an assignment
 STD_MEMBERS = [
     (r'^(operator (bool|int|long|unsigned long|unsigned int|double)|load)\|std::atomic<(bool|int|long|unsigned long|unsigned int|double)>', '(*{self})'),
@@ -145,7 +149,10 @@ class Printer:
         self.default_file = None
         self.byref_captures = set()     # decl ids of non-reference variables a lambda captures by reference
         self.renamed = {}               # decl id -> printed name, for parameters whose C++ name repeats (expanded packs)
+        self.loop_bounds = {}           # loop ordinal -> printed bound expression of the loop condition (NV_LOOPBOUND_<c_name>_<k>)
         self.auto_loops = {}            # loop ordinal -> default contract of a canonical counting loop (NV_AUTOLOOP_<c_name>_<k>)
+        self.try_stack = []             # enclosing try blocks: (handler label, scope depth at the try) -- see stmt1 CXXTryStmt
+        self.tries = 0
         self.loop_counters = {}         # loop ordinal -> printed name of the loop's counter variable (NV_LOOPVAR_<c_name>_<k>)
         self.tu = None                  # translation unit of the function (set by core.Fn.emit): where unmapped /repo helpers are looked up
         self.auto_fns = {}              # (name, function type) -> C name of an auto-extracted helper (shared with nested printers)
@@ -257,7 +264,7 @@ class Printer:
             text = text[2:-1]
             c += '*'
         self.hoisted.append(f'{c} {t} = {text};')
-        self.hoisted.append(f'if (nv_thrown) return {self.default_value(self.ret_ctype)};')
+        self.hoisted.append(f'if (nv_thrown) {self.exc_exit()}')
         return f'(*{t})' if byref else t
 
     def apply_plain(self, mapping, args, selfexpr=None, node=None, key='', noted=False, objnode=None):
@@ -779,18 +786,53 @@ class Printer:
                 self.scopes[-1].append((v['name'], m))
                 return
 
+    def exc_exit(self):
+        """where control goes when an exception is in flight (nv_thrown set): out of the function, or -- inside a try block -- to
+        the handler of the innermost enclosing try"""
+        if self.try_stack:
+            return f'goto {self.try_stack[-1][0]};'
+        return f'return {self.default_value(self.ret_ctype)};'
+
+    def exc_depth(self):
+        return self.try_stack[-1][1] if self.try_stack else 0
+
+    def try_stmt(self, n, ind):
+        """try { B } catch (...) { H }  (one handler that catches everything: `catch (...)`):
+              { B'  goto nv_try_end_k;  nv_handler_k: nv_thrown = 0; { H }  nv_try_end_k: ; }
+        B' = B with every exception exit (`throw`, critical(), `if (nv_thrown) ..` after a may-throw callee) jumping to
+        nv_handler_k instead of leaving the function (RAII locals of the scopes opened inside the try are destroyed first).  The
+        handler runs with the flag cleared; `throw;` inside it sets the flag again and leaves through the enclosing exit.
+        Sound for the callees the spec marks may-throw ('!'): an unmarked callee is assumed not to throw, as everywhere else."""
+        p = '  ' * ind
+        inner = n.get('inner', [])
+        if len(inner) != 2 or inner[1].get('kind') != 'CXXCatchStmt':
+            raise Unsupported(f'try with {len(inner) - 1} handlers (target {self.cname})')
+        h = [c for c in inner[1].get('inner', []) if c.get('kind') == 'CompoundStmt']
+        decl = [c for c in inner[1].get('inner', []) if c.get('kind') == 'VarDecl']
+        if decl or len(h) != 1:
+            raise Unsupported(f'catch handler that is not `catch (...)` (target {self.cname})')
+        self.tries += 1
+        k = self.tries
+        self.note(f'try / catch (...) -> nv_handler_{k}')
+        self.may_throw_in_try = True
+        self.try_stack.append((f'nv_handler_{k}', len(self.scopes)))
+        body = self.block(inner[0], ind + 1)
+        self.try_stack.pop()
+        hb = self.block(h[0], ind + 1)
+        return (f'{p}{{\n{body}{p}  goto nv_try_end_{k};\n{p}  nv_handler_{k}: nv_thrown = 0;\n{hb}{p}  nv_try_end_{k}: ;\n{p}}}\n')
+
     def throw_stmt(self, p):
         self.may_throw = True
-        if any(self.scopes):
-            return f'{p}{{ nv_thrown = 1;\n{self.unwind(0, p + "  ")}{p}  return {self.default_value(self.ret_ctype)}; }}\n'
-        return f'{p}{{ nv_thrown = 1; return {self.default_value(self.ret_ctype)}; }}\n'
+        if any(self.scopes[self.exc_depth():]):
+            return f'{p}{{ nv_thrown = 1;\n{self.unwind(self.exc_depth(), p + "  ")}{p}  {self.exc_exit()} }}\n'
+        return f'{p}{{ nv_thrown = 1; {self.exc_exit()} }}\n'
 
     def after(self, p):
         if getattr(self, 'pending_throw', False):
             self.pending_throw = False
-            if any(self.scopes):
-                return f'{p}if (nv_thrown)\n{p}{{\n{self.unwind(0, p + "  ")}{p}  return {self.default_value(self.ret_ctype)};\n{p}}}\n'
-            return f'{p}if (nv_thrown) return {self.default_value(self.ret_ctype)};\n'
+            if any(self.scopes[self.exc_depth():]):
+                return f'{p}if (nv_thrown)\n{p}{{\n{self.unwind(self.exc_depth(), p + "  ")}{p}  {self.exc_exit()}\n{p}}}\n'
+            return f'{p}if (nv_thrown) {self.exc_exit()}\n'
         return ''
 
     def vardecl(self, v, p):
@@ -871,12 +913,47 @@ class Printer:
         if name:
             self.loop_counters[self.loops] = name
             try:
+                b = self.loop_bound_expr(cond, name)
+                if b:
+                    self.loop_bounds[self.loops] = b
+            except Unsupported:
+                pass
+            try:
                 auto = self.auto_loop_contract(cond, parts)
             except Unsupported:
                 auto = None
             if auto:
                 self.auto_loops[self.loops] = auto
+        elif cond:
+            # an ITERATOR loop (`for (auto it = v.begin(); it != v.end(); ++it)`, also as a while loop): the class-type variable
+            # that an overloaded comparison bounds and an overloaded ++ / -- / += / -= advances; only the name is published
+            # (NV_LOOPVAR_<c_name>_<k>), there is no default contract for such loops
+            it = self.find_loop_iterator(cond, parts)
+            if it:
+                self.loop_counters[self.loops] = it
         return f'NV_LOOP_{self.cname}_{self.loops}'
+
+    def find_loop_iterator(self, cond, parts):
+        def opcall(x, names):
+            if x.get('kind') != 'CXXOperatorCallExpr' or len(x.get('inner', [])) < 2:
+                return None
+            rd = unwrap(x['inner'][0]).get('referencedDecl') or {}
+            return x['inner'][1:] if rd.get('name') in names else None
+        advanced = set()
+        for part in parts:
+            for x in astload_walk(part or {}):
+                args = opcall(x, ('operator++', 'operator--', 'operator+=', 'operator-='))
+                if args:
+                    u = unwrap(args[0])
+                    if u.get('kind') == 'DeclRefExpr' and u['referencedDecl'].get('kind') == 'VarDecl':
+                        advanced.add(u['referencedDecl'].get('id'))
+        for x in astload_walk(cond):
+            for side in opcall(x, ('operator!=', 'operator<', 'operator<=', 'operator>', 'operator>=')) or ():
+                u = unwrap(side)
+                if u.get('kind') == 'DeclRefExpr' and u['referencedDecl'].get('id') in advanced:
+                    rid = u['referencedDecl'].get('id')
+                    return self.renamed.get(rid, u['referencedDecl'].get('name'))
+        return None
 
     def auto_loop_contract(self, cond, parts):
         """NV_AUTOLOOP_<c_name>_<k>: the contract of a canonical counting loop whose body writes nothing the contracts model
@@ -938,6 +1015,21 @@ class Printer:
                             f'({cc} <= {b} || {cn} == __CPROVER_loop_entry({cn}))) __CPROVER_decreases(({cc} <= {b}) ? ({b}) - ({cc}) : 0)')
                 return (f'__CPROVER_assigns({cn}) __CPROVER_loop_invariant({cn} <= __CPROVER_loop_entry({cn}) && '
                         f'({cc} >= {b} || {cn} == __CPROVER_loop_entry({cn}))) __CPROVER_decreases(({cc} >= {b}) ? ({cc}) - ({b}) : 0)')
+        return None
+
+    def loop_bound_expr(self, cond, counter):
+        """NV_LOOPBOUND_<c_name>_<k>: the expression the loop's condition compares its counter with (`kbest <= max_kbest` ->
+        `max_kbest`), printed from the current source: a contract that says "counter <= bound + 1" keeps following the bound when a
+        maintainer renames it or moves it into a local"""
+        for x in astload_walk(cond):
+            if x.get('kind') == 'BinaryOperator' and x.get('opcode') in ('<', '<=', '>', '>=', '!='):
+                for ci, bi in ((0, 1), (1, 0)):
+                    u = unwrap(x['inner'][ci])
+                    if u.get('kind') == 'DeclRefExpr' and self.renamed.get(u['referencedDecl'].get('id'), u['referencedDecl'].get('name')) == counter:
+                        bound = x['inner'][bi]
+                        if any(y.get('kind') in ('CallExpr', 'CXXMemberCallExpr', 'CXXOperatorCallExpr', 'CompoundAssignOperator') for y in astload_walk(bound)):
+                            return None
+                        return '(' + self.expr(bound) + ')'
         return None
 
     def find_loop_counter(self, cond, parts):
@@ -1034,7 +1126,7 @@ class Printer:
                 self.pending_throw = False
                 self.tmp += 1
                 t = f'nv_cond{self.tmp}'
-                hoist = f'{p}_Bool {t} = {ce};\n{p}if (nv_thrown) return {self.default_value(self.ret_ctype)};\n'
+                hoist = f'{p}_Bool {t} = {ce};\n{p}if (nv_thrown) {self.exc_exit()}\n'
                 ce = t
             s = f'{p}if ({ce})\n' + self.block(parts[1], ind)
             if len(parts) > 2:
@@ -1076,6 +1168,8 @@ class Printer:
             self.loop_scope.pop()
             return s
         if k == 'ReturnStmt':
+            if self.try_stack:
+                raise Unsupported(f'return inside a try block (target {self.cname})')
             if not inner:
                 return self.unwind(0, p) + f'{p}return;\n'
             # a function returning a reference returns the address of the denoted object (references print as pointers)
@@ -1128,7 +1222,9 @@ class Printer:
             return self.range_for(n, ind)
         if k in ('ExprWithCleanups',) and inner and inner[0].get('kind') == 'CXXThrowExpr':
             return self.throw_stmt(p)
-        if k in ('CXXTryStmt', 'CXXCatchStmt', 'GotoStmt', 'LabelStmt', 'LambdaExpr'):
+        if k == 'CXXTryStmt':
+            return self.try_stmt(n, ind)
+        if k in ('CXXCatchStmt', 'GotoStmt', 'LabelStmt', 'LambdaExpr'):
             raise Unsupported(f'statement kind {k} (target {self.cname})')
         # expression statement
         self.always_throws = False
@@ -1190,6 +1286,11 @@ class Printer:
             if d:
                 s += self.stmt(d, ind + 1)
         mac = self.loop_macro()
+        # the range-for's own iterator variable (`__begin1`), published like any other loop counter: a loop contract written with
+        # NV_LOOPVAR_<c_name>_<k> then also fits the same loop written with an explicit iterator
+        bv = [x for x in (beg or {}).get('inner', []) if x.get('kind') == 'VarDecl']
+        if bv and bv[0].get('name'):
+            self.loop_counters[self.loops] = bv[0]['name']
         self.loop_scope.append(len(self.scopes))
         s += f'{p}  for (; {self.cond(cond)}; {self.cond(inc)})\n{p}  {mac}\n{p}  {{\n'
         self.scopes.append([])
@@ -1254,6 +1355,24 @@ class Printer:
             for c in inits:
                 any_ = c.get('anyInit')
                 if not any_ or not c.get('inner'):
+                    if c.get('delegatingInit') and c.get('inner'):
+                        # delegating constructor `T(a) : T(f(a), g(a)) {}`: the target constructor is a `calls` mapping on
+                        # `ctor|<type>|<ctorType>` that names {self} (an extracted constructor or its contract): `target(self, args..);`
+                        e = c['inner'][0]
+                        while e.get('kind') in ('ExprWithCleanups', 'MaterializeTemporaryExpr', 'CXXBindTemporaryExpr') and e.get('inner'):
+                            e = e['inner'][0]
+                        if e.get('kind') != 'CXXConstructExpr':
+                            raise Unsupported(f'delegating initialiser of kind {e.get("kind")}')
+                        key = f'ctor|{strip_cv(qual(e["type"]))}|{e.get("ctorType", {}).get("qualType", "")}'
+                        m = self.lookup(self.calls, key)
+                        if m is None or '{self}' not in m:
+                            raise Unsupported(f'delegating constructor not mapped (the mapping must name {{self}}): {key}')
+                        self.hoisted = []
+                        call = self.apply(m, e.get('inner', []), selfexpr='self', node=e, key=key)
+                        pre += ''.join(f'  {h}\n' for h in self.hoisted)
+                        self.hoisted = None
+                        pre += f'  {call};\n' + self.after('  ')
+                        continue
                     if c.get('baseInit'):
                         e = self.expr(c['inner'][0]) if c.get('inner') else '((void)0)'
                         pre += f'  {e};\n' if e != '((void)0)' else ''
